@@ -125,6 +125,31 @@ func renderTok(m *bind.Msg, t tok) []byte {
 			}
 		}
 		return nil
+	case -4, -5, -6:
+		// whole unknown elements in the TS 24.007 formats (the property quantifies over unknown optional elements, and a
+		// decoder that keeps or skips them by format sees an element where the byte-wise decoder sees stray octets):
+		// -4 and -5 are TLV elements with two different unknown identifiers, -6 is a TLV-E element (identifier 0x7x)
+		var unk []int
+		for c := 0x6F; c >= 0x10 && len(unk) < 3; c-- {
+			if !isIEI(m, c, false) {
+				unk = append(unk, c)
+			}
+		}
+		if len(unk) < 3 {
+			return nil
+		}
+		switch t.Slot {
+		case -4:
+			return []byte{byte(unk[0]), 1, byte(unk[2])}
+		case -5:
+			return []byte{byte(unk[1]), 2, byte(unk[2]), byte(unk[2])}
+		}
+		for c := 0x7F; c >= 0x70; c-- {
+			if !isIEI(m, c, false) {
+				return []byte{byte(c), 0, 1, byte(unk[2])}
+			}
+		}
+		return nil
 	case -3: // octet < 0x10 equal to a half-octet identifier value (the decoder's alias case)
 		for k := range m.Slots {
 			if m.Slots[k].Optional && m.Slots[k].Half {
@@ -281,7 +306,7 @@ func optTokens(m *bind.Msg, full bool) []tok {
 			out = append(out, slotTokens(m, i, full)...)
 		}
 	}
-	out = append(out, tok{Slot: -1}, tok{Slot: -2}, tok{Slot: -3})
+	out = append(out, tok{Slot: -1}, tok{Slot: -2}, tok{Slot: -3}, tok{Slot: -4}, tok{Slot: -5}, tok{Slot: -6})
 	return out
 }
 
